@@ -179,28 +179,43 @@ FUNCS = {
 }
 
 
+def _allint(*xs):
+    return all(isinstance(x, int) and not isinstance(x, bool) for x in xs)
+
+
+def _nobool(*xs):
+    if any(isinstance(x, bool) for x in xs):
+        raise Unsupported('bool operand')
+
+
 def wrap(x, lo, hi):
-    """wrap x into [lo, hi] (ints, inclusive) / [lo, hi) (floats)."""
+    """wrap x into [lo, hi] (all ints, inclusive) / [lo, hi) (any float involved).  Written with plain
+    int/Fraction arithmetic, so int/float mixes promote exactly as Python numbers do; a value already in
+    range is returned as it is."""
     need_num(x, lo, hi)
-    same_kind(x, lo, hi)
-    if not isfloat(x) and not isfloat(lo) and not isfloat(hi):
-        m = hi - lo + 1
-        if m == 0:
-            raise ZeroDivisionError
-        return (x - lo) % m + lo
-    x, lo, hi = Fraction(x), Fraction(lo), Fraction(hi)
-    if lo <= x < hi:
-        return x
-    if hi == lo:
-        return lo
+    _nobool(x, lo, hi)
+    if lo >= hi:
+        raise Unsupported('lo >= hi')
+    if _allint(x, lo, hi):
+        return (x - lo) % (hi - lo + 1) + lo
     r = hi - lo
-    return x - r * math.floor((x - lo) / r)
+    if x >= hi:
+        x = x - r
+        if x < hi:
+            return x
+    elif x < lo:
+        x = x + r
+        if x >= lo:
+            return x
+    else:
+        return x
+    return x - r * math.floor(Fraction(x - lo) / r)
 
 
 def clip(x, lo, hi):
-    """clip x into [lo, hi]; the result has the type of x."""
+    """clip x into [lo, hi]; the bounds are cast to the type of x (sc_clip(T x, U lo, V hi))."""
     need_num(x, lo, hi)
-    same_kind(x, lo, hi)
+    _nobool(x, lo, hi)
     if isfloat(x):
         lo, hi = Fraction(lo), Fraction(hi)
     else:
@@ -210,24 +225,30 @@ def clip(x, lo, hi):
 
 def fold(x, lo, hi):
     need_num(x, lo, hi)
-    same_kind(x, lo, hi)
-    if not isfloat(x) and not isfloat(lo) and not isfloat(hi):
+    _nobool(x, lo, hi)
+    if lo >= hi:
+        raise Unsupported('lo >= hi')
+    if _allint(x, lo, hi):
         b = hi - lo
-        if b == 0:
-            return lo
         b2 = b + b
         c = (x - lo) % b2
         if c > b:
             c = b2 - c
         return c + lo
-    x, lo, hi = Fraction(x), Fraction(lo), Fraction(hi)
-    if lo <= x < hi:
+    x2 = x - lo
+    if x >= hi:
+        x = hi + hi - x
+        if x >= lo:
+            return x
+    elif x < lo:
+        x = lo + lo - x
+        if x < hi:
+            return x
+    else:
         return x
-    if hi == lo:
-        return lo
     r = hi - lo
     r2 = r + r
-    c = (x - lo) - r2 * math.floor((x - lo) / r2)
+    c = x2 - r2 * math.floor(Fraction(x2) / r2)
     if c >= r:
         c = r2 - c
     return c + lo
